@@ -9,16 +9,40 @@
 //! fn: pallas_network2::protocol::handshake::State::<n2n::VersionData>::apply (Accept/Refuse messages only)
 //! outside: sequences are covered by one step from an arbitrary state because `apply(&self, &msg)` is a pure function of (state, message); that composition argument is not machine-checked
 //! outside: Vec payloads longer than 1 element / byte strings longer than 1 byte inside states and messages (apply only clones them)
-//! outside: handshake Propose/QueryReply messages and the Confirm state holding a non-empty version table (HashMap is not executable under CBMC); keepalive cookie equality between request and response is not part of the transition table
+//! outside: handshake Propose/QueryReply messages and a Confirm state holding a non-empty version table (HashMap is not executable under CBMC); keepalive cookie equality between request and response is not part of the transition table
 //! outside: leios-notify / leios-fetch tables are transcribed from the module documentation of pallas-network2/src/protocol/leios*.rs (cardano-blueprint submodule is empty in this tree): weaker oracle
 //! assume: spec tables = DESIGN.md Appendix A (trusted, hand-transcribed from the Ouroboros network specification)
+//! assume: keepalive (Client, Done), peersharing (Idle, Done) and the txsubmission pairs (Idle, RequestTxIds(non-blocking)), (TxIdsNonBlocking, ReplyTxIds), (TxIdsBlocking, ReplyTxIds), (TxIdsBlocking, Done), (Txs, ReplyTxs) are excluded by kani::assume from the table harnesses c24_q_keepalive / c24_q_peersharing / c24_q_txsubmission and decided one by one in c24_q_keepalive_client_done, c24_q_peersharing_idle_done, c24_q_txsub_* (findings)
+//! assume: handshake: the proposed version table held by the Confirm state is empty (apply never reads it)
+//!
+//! Shape of the family (measured: with state class *and* message variant symbolic, comparing the carried payload as
+//! well gives an 18 M clause formula and no verdict in 400 s; the transition relation alone is ~1 min):
+//!  * `c24_q_<proto>`: symbolic state kind x symbolic message variant -> `is_ok <=> spec allows` and next-state class;
+//!  * `c24_q_<proto>_c_<transition>`: one allowed transition each (state class and message variant concrete, all
+//!    scalars symbolic) -> additionally the payload carried into the next state;
+//!  * one harness per known deviation, excluded by `kani::assume` from `c24_q_<proto>` (see `assume:` lines).
 use pallas_network2::protocol::{self as proto, Point};
 
 // ---------------------------------------------------------------------------------------------
-// symbolic builders (vectors: empty or one symbolic element) and field-wise comparisons
+// symbolic builders and field-wise comparisons
 // ---------------------------------------------------------------------------------------------
-fn any_bytes1() -> Vec<u8> {
-    if kani::any() {
+/// length of every vector / byte string built by the `any_*` builders (0 or 1), set first thing by the harness
+static mut VLEN: usize = 1;
+pub fn set_vlen(n: usize) {
+    unsafe { VLEN = n }
+}
+pub fn vlen() -> usize {
+    unsafe { VLEN }
+}
+/// vectors empty or one element, decided once per execution (symbolic)
+pub fn any_vlen() {
+    let l: usize = kani::any();
+    kani::assume(l <= 1);
+    set_vlen(l);
+}
+
+pub fn any_bytes1() -> Vec<u8> {
+    if vlen() == 0 {
         Vec::new()
     } else {
         let b: u8 = kani::any();
@@ -26,12 +50,12 @@ fn any_bytes1() -> Vec<u8> {
     }
 }
 
-fn eq_bytes1(a: &[u8], b: &[u8]) -> bool {
+pub fn eq_bytes1(a: &[u8], b: &[u8]) -> bool {
     // lengths are <= 1 by construction
     a.len() == b.len() && (a.len() == 0 || (a.len() == 1 && a[0] == b[0]))
 }
 
-fn any_point() -> Point {
+pub fn any_point() -> Point {
     if kani::any() {
         Point::Origin
     } else {
@@ -39,7 +63,7 @@ fn any_point() -> Point {
     }
 }
 
-fn eq_point(a: &Point, b: &Point) -> bool {
+pub fn eq_point(a: &Point, b: &Point) -> bool {
     match (a, b) {
         (Point::Origin, Point::Origin) => true,
         (Point::Specific(s, h), Point::Specific(s2, h2)) => *s == *s2 && eq_bytes1(h, h2),
@@ -47,24 +71,109 @@ fn eq_point(a: &Point, b: &Point) -> bool {
     }
 }
 
-fn any_points1() -> Vec<Point> {
-    if kani::any() {
+pub fn any_points1() -> Vec<Point> {
+    if vlen() == 0 {
         Vec::new()
     } else {
         vec![any_point()]
     }
 }
 
-fn eq_points1(a: &[Point], b: &[Point]) -> bool {
+pub fn eq_points1(a: &[Point], b: &[Point]) -> bool {
     a.len() == b.len() && (a.len() == 0 || (a.len() == 1 && eq_point(&a[0], &b[0])))
+}
+
+pub fn any_cbor1() -> proto::AnyCbor {
+    proto::AnyCbor::from_raw_bytes(any_bytes1())
+}
+
+pub fn any_cbors1() -> Vec<proto::AnyCbor> {
+    if vlen() == 0 {
+        Vec::new()
+    } else {
+        vec![any_cbor1()]
+    }
+}
+
+pub fn eq_cbors1(a: &[proto::AnyCbor], b: &[proto::AnyCbor]) -> bool {
+    a.len() == b.len() && (a.len() == 0 || (a.len() == 1 && eq_bytes1(a[0].raw_bytes(), b[0].raw_bytes())))
+}
+
+/// a kind in lo..hi: symbolic, except that a one-element range gives a *concrete* value (an assumed-equal symbolic
+/// value would still make CBMC build and merge every arm of the `match k` in the builders)
+pub fn any_kind(lo: u8, hi: u8) -> u8 {
+    if hi == lo + 1 {
+        return lo;
+    }
+    let k: u8 = kani::any();
+    kani::assume(lo <= k && k < hi);
+    k
+}
+
+/// `table!`: state kind and message variant symbolic; decides `is_ok <=> allowed` and the next-state class.
+macro_rules! table {
+    ($name:ident, $m:ident, $unw:expr) => {
+        table!($name, $m, $unw, 0, $m::N_MSG);
+    };
+    ($name:ident, $m:ident, $unw:expr, $mlo:expr, $mhi:expr) => {
+        #[kani::proof]
+        #[kani::unwind($unw)]
+        fn $name() {
+            any_vlen();
+            let st = $m::state_k(any_kind(0, $m::N_STATE));
+            let msg = $m::msg_k(any_kind($mlo, $mhi));
+            kani::assume(!$m::excluded($m::cls(&st), &msg));
+            let want = $m::spec($m::cls(&st), &msg);
+            let r = st.apply(&msg);
+            assert!(r.is_ok() == want.is_some(), "accepted exactly when the specification allows the message in this state");
+            if let Ok(n) = &r {
+                assert!(Some($m::cls(n)) == want, "next state class is the prescribed one");
+            }
+            kani::cover!(r.is_ok(), "an allowed pair is reached and accepted");
+            kani::cover!(r.is_err(), "a forbidden pair is reached and refused");
+            kani::cover!(r.is_err() && $m::cls(&st) == $m::Cls::Done, "Done accepts nothing");
+            kani::cover!(vlen() == 1, "one-element payloads reached");
+            kani::cover!(vlen() == 0, "empty payloads reached");
+            core::mem::forget(r);
+            core::mem::forget(st);
+            core::mem::forget(msg);
+        }
+    };
+}
+
+/// `carry!`: one transition of the table (state kinds lo..hi of one class, message variant concrete): full check incl. carried payload.
+macro_rules! carry {
+    ($name:ident, $m:ident, $lo:expr, $hi:expr, $mk:expr, $unw:expr) => {
+        carry!($name, $m, $lo, $hi, $mk, $unw, any_vlen());
+    };
+    ($name:ident, $m:ident, $lo:expr, $hi:expr, $mk:expr, $unw:expr, $setlen:expr) => {
+        #[kani::proof]
+        #[kani::unwind($unw)]
+        fn $name() {
+            $setlen;
+            let st = $m::state_k(any_kind($lo, $hi));
+            let msg = $m::msg_k($mk);
+            let want = $m::spec($m::cls(&st), &msg);
+            let r = st.apply(&msg);
+            assert!(r.is_ok() == want.is_some(), "accepted exactly when the specification allows the message in this state");
+            if let Ok(n) = &r {
+                assert!(Some($m::cls(n)) == want, "next state class is the prescribed one");
+                $m::payload(&st, &msg, n);
+            }
+            kani::cover!(r.is_ok(), "transition taken");
+            core::mem::forget(r);
+            core::mem::forget(st);
+            core::mem::forget(msg);
+        }
+    };
 }
 
 // ---------------------------------------------------------------------------------------------
 // keepalive
 // ---------------------------------------------------------------------------------------------
-mod ka {
+pub mod ka {
     use super::*;
-    use proto::keepalive::{ClientState, Message, State};
+    pub use proto::keepalive::{ClientState, Message, State};
 
     #[derive(Clone, Copy, PartialEq, Eq)]
     pub enum Cls {
@@ -81,9 +190,8 @@ mod ka {
         }
     }
 
-    pub fn any_state() -> State {
-        let k: u8 = kani::any();
-        kani::assume(k < 4);
+    pub const N_STATE: u8 = 4;
+    pub fn state_k(k: u8) -> State {
         match k {
             0 => State::Client(ClientState::Empty),
             1 => State::Client(ClientState::Response(kani::any())),
@@ -92,9 +200,8 @@ mod ka {
         }
     }
 
-    pub fn any_msg() -> Message {
-        let k: u8 = kani::any();
-        kani::assume(k < 3);
+    pub const N_MSG: u8 = 3;
+    pub fn msg_k(k: u8) -> Message {
         match k {
             0 => Message::KeepAlive(kani::any()),
             1 => Message::ResponseKeepAlive(kani::any()),
@@ -112,40 +219,33 @@ mod ka {
         }
     }
 
-    pub fn check(st: &State, msg: &Message) {
-        let want = spec(cls(st), msg);
-        let r = st.apply(msg);
-        assert!(r.is_ok() == want.is_some(), "accepted exactly when the specification allows the message in this state");
-        if let Ok(n) = &r {
-            assert!(Some(cls(n)) == want, "next state class is the prescribed one");
-            match (msg, n) {
-                (Message::KeepAlive(c), State::Server(c2)) => assert!(*c == *c2, "Server state carries the request cookie"),
-                (Message::ResponseKeepAlive(c), State::Client(ClientState::Response(c2))) => {
-                    assert!(*c == *c2, "Client state carries the response cookie")
-                }
-                (Message::Done, State::Done) => {}
-                _ => assert!(false, "carried payload has the prescribed shape"),
+    /// the pair on which the current tree is known to deviate (own harness)
+    pub fn excluded(s: Cls, m: &Message) -> bool {
+        s == Cls::Client && matches!(m, Message::Done)
+    }
+
+    pub fn witness(st: &State, m: &Message) -> bool {
+        matches!(st, State::Server(_)) && matches!(m, Message::ResponseKeepAlive(_))
+    }
+
+    pub fn payload(_st: &State, msg: &Message, n: &State) {
+        match (msg, n) {
+            (Message::KeepAlive(c), State::Server(c2)) => assert!(*c == *c2, "Server state carries the request cookie"),
+            (Message::ResponseKeepAlive(c), State::Client(ClientState::Response(c2))) => {
+                assert!(*c == *c2, "Client state carries the response cookie")
             }
+            (Message::Done, State::Done) => {}
+            _ => assert!(false, "carried payload has the prescribed shape"),
         }
-        kani::cover!(r.is_ok() && matches!(msg, Message::KeepAlive(_)), "KeepAlive accepted");
-        kani::cover!(r.is_ok() && matches!(msg, Message::ResponseKeepAlive(_)), "Response accepted");
-        kani::cover!(r.is_err() && matches!(st, State::Done), "Done accepts nothing");
-        kani::cover!(r.is_err() && matches!(st, State::Server(_)), "wrong message refused in Server");
-        core::mem::forget(r);
     }
 }
 
-/// keepalive: whole (state, message) table except the one pair reported by c24_q_keepalive_client_done
-/// bound: state in {Client(Empty), Client(Response(c)), Server(c), Done}, message in {KeepAlive(c), ResponseKeepAlive(c), Done}, cookies any u16; unwind 2 (no loops)
-/// assume: (state class Client, message Done) excluded here -- decided by c24_q_keepalive_client_done (known finding)
-#[kani::proof]
-#[kani::unwind(2)]
-fn c24_q_keepalive() {
-    let st = ka::any_state();
-    let msg = ka::any_msg();
-    kani::assume(!(ka::cls(&st) == ka::Cls::Client && matches!(msg, proto::keepalive::Message::Done)));
-    ka::check(&st, &msg);
-}
+// assume: keepalive (state class Client, message Done) is excluded from c24_q_keepalive -- decided by c24_q_keepalive_client_done (finding)
+// bound: keepalive: state in {Client(Empty), Client(Response(c)), Server(c), Done} x message in {KeepAlive(c), ResponseKeepAlive(c), Done}, cookies any u16; unwind 2 (no loops)
+table!(c24_q_keepalive, ka, 2);
+// bound: keepalive, one allowed transition, cookies any u16: carried cookie; unwind 2
+carry!(c24_q_keepalive_c_request, ka, 0, 2, 0, 2);
+carry!(c24_q_keepalive_c_response, ka, 2, 3, 1, 2);
 
 /// keepalive finding: the specification lets the client terminate (`Done`) while it has agency
 /// bound: state Client(Empty) or Client(Response(c)), c any u16; message Done; unwind 2
@@ -153,11 +253,10 @@ fn c24_q_keepalive() {
 #[kani::proof]
 #[kani::unwind(2)]
 fn c24_q_keepalive_client_done() {
-    let st = ka::any_state();
-    kani::assume(ka::cls(&st) == ka::Cls::Client);
-    let msg = proto::keepalive::Message::Done;
+    let st = ka::state_k(any_kind(0, 2));
+    let msg = ka::Message::Done;
+    kani::cover!(ka::excluded(ka::cls(&st), &msg), "this is the pair excluded from c24_q_keepalive");
     let r = st.apply(&msg);
-    kani::cover!(true, "Client state reached");
     assert!(r.is_ok(), "spec: Client --Done--> Done is accepted");
     if let Ok(n) = &r {
         assert!(ka::cls(n) == ka::Cls::Done, "spec: Client --Done--> Done ends in Done");
@@ -168,9 +267,9 @@ fn c24_q_keepalive_client_done() {
 // ---------------------------------------------------------------------------------------------
 // peersharing
 // ---------------------------------------------------------------------------------------------
-mod ps {
+pub mod ps {
     use super::*;
-    use proto::peersharing::{IdleState, Message, PeerAddress, State};
+    pub use proto::peersharing::{IdleState, Message, PeerAddress, State};
     use std::net::{Ipv4Addr, Ipv6Addr};
 
     #[derive(Clone, Copy, PartialEq, Eq)]
@@ -205,16 +304,15 @@ mod ps {
     }
 
     pub fn any_addrs1() -> Vec<PeerAddress> {
-        if kani::any() {
+        if vlen() == 0 {
             Vec::new()
         } else {
             vec![any_addr()]
         }
     }
 
-    pub fn any_state() -> State {
-        let k: u8 = kani::any();
-        kani::assume(k < 4);
+    pub const N_STATE: u8 = 4;
+    pub fn state_k(k: u8) -> State {
         match k {
             0 => State::Idle(IdleState::Empty),
             1 => State::Idle(IdleState::Response(any_addrs1())),
@@ -223,9 +321,8 @@ mod ps {
         }
     }
 
-    pub fn any_msg() -> Message {
-        let k: u8 = kani::any();
-        kani::assume(k < 3);
+    pub const N_MSG: u8 = 3;
+    pub fn msg_k(k: u8) -> Message {
         match k {
             0 => Message::ShareRequest(kani::any()),
             1 => Message::SharePeers(any_addrs1()),
@@ -243,45 +340,36 @@ mod ps {
         }
     }
 
-    pub fn check(st: &State, msg: &Message) {
-        let want = spec(cls(st), msg);
-        let r = st.apply(msg);
-        assert!(r.is_ok() == want.is_some(), "accepted exactly when the specification allows the message in this state");
-        if let Ok(n) = &r {
-            assert!(Some(cls(n)) == want, "next state class is the prescribed one");
-            match (msg, n) {
-                (Message::ShareRequest(a), State::Busy(b)) => assert!(*a == *b, "Busy carries the requested amount"),
-                (Message::SharePeers(v), State::Idle(IdleState::Response(w))) => {
-                    assert!(v.len() == w.len(), "Idle carries as many peers as were received");
-                    if v.len() == 1 {
-                        assert!(eq_addr(&v[0], &w[0]), "Idle carries the received peer");
-                    }
+    /// the pair on which the current tree deviates (own harness)
+    pub fn excluded(s: Cls, m: &Message) -> bool {
+        s == Cls::Idle && matches!(m, Message::Done)
+    }
+
+    pub fn witness(st: &State, m: &Message) -> bool {
+        matches!(st, State::Busy(_)) && matches!(m, Message::SharePeers(_))
+    }
+
+    pub fn payload(_st: &State, msg: &Message, n: &State) {
+        match (msg, n) {
+            (Message::ShareRequest(a), State::Busy(b)) => assert!(*a == *b, "Busy carries the requested amount"),
+            (Message::SharePeers(v), State::Idle(IdleState::Response(w))) => {
+                assert!(v.len() == w.len(), "Idle carries as many peers as were received");
+                if v.len() == 1 {
+                    assert!(eq_addr(&v[0], &w[0]), "Idle carries the received peer");
                 }
-                (Message::Done, State::Done) => {}
-                _ => assert!(false, "carried payload has the prescribed shape"),
             }
+            (Message::Done, State::Done) => {}
+            _ => assert!(false, "carried payload has the prescribed shape"),
         }
-        kani::cover!(r.is_ok() && matches!(msg, Message::ShareRequest(_)), "ShareRequest accepted");
-        kani::cover!(r.is_ok() && matches!(msg, Message::SharePeers(v) if v.len() == 1), "SharePeers with one peer accepted");
-        kani::cover!(r.is_err() && matches!(st, State::Done), "Done accepts nothing");
-        kani::cover!(r.is_err() && matches!(st, State::Busy(_)), "wrong message refused in Busy");
-        core::mem::forget(r);
     }
 }
 
-/// peersharing: whole (state, message) table except the pair reported by c24_q_peersharing_idle_done
-/// bound: state in {Idle(Empty), Idle(Response(0..1 peers)), Busy(n), Done}, message in {ShareRequest(n), SharePeers(0..1 peers, V4/V6 any address and port), Done}; unwind 3
-/// assume: (state class Idle, message Done) excluded here -- decided by c24_q_peersharing_idle_done (finding)
-#[kani::proof]
-#[kani::unwind(3)]
-fn c24_q_peersharing() {
-    let st = ps::any_state();
-    let msg = ps::any_msg();
-    kani::assume(!(ps::cls(&st) == ps::Cls::Idle && matches!(msg, proto::peersharing::Message::Done)));
-    ps::check(&st, &msg);
-    core::mem::forget(st);
-    core::mem::forget(msg);
-}
+// assume: peersharing (state class Idle, message Done) is excluded from c24_q_peersharing -- decided by c24_q_peersharing_idle_done (finding)
+// bound: peersharing: state in {Idle(Empty), Idle(Response(0..1 peers)), Busy(n), Done} x message in {ShareRequest(n), SharePeers(0..1 peers, V4/V6, any address and port), Done}; unwind 3
+table!(c24_q_peersharing, ps, 3);
+// bound: peersharing, one allowed transition, scalars symbolic, 0..1 peers: carried amount / peers; unwind 3
+carry!(c24_q_peersharing_c_request, ps, 0, 2, 0, 3);
+carry!(c24_q_peersharing_c_peers, ps, 2, 3, 1, 3);
 
 /// peersharing finding: the specification lets the client terminate (`Done`) while idle
 /// bound: state Idle(Empty) or Idle(Response(0..1 peers)); message Done; unwind 3
@@ -289,11 +377,11 @@ fn c24_q_peersharing() {
 #[kani::proof]
 #[kani::unwind(3)]
 fn c24_q_peersharing_idle_done() {
-    let st = ps::any_state();
-    kani::assume(ps::cls(&st) == ps::Cls::Idle);
-    let msg = proto::peersharing::Message::Done;
+    any_vlen();
+    let st = ps::state_k(any_kind(0, 2));
+    let msg = ps::Message::Done;
+    kani::cover!(ps::excluded(ps::cls(&st), &msg), "this is the pair excluded from c24_q_peersharing");
     let r = st.apply(&msg);
-    kani::cover!(true, "Idle state reached");
     assert!(r.is_ok(), "spec: Idle --Done--> Done is accepted");
     if let Ok(n) = &r {
         assert!(ps::cls(n) == ps::Cls::Done, "spec: Idle --Done--> Done ends in Done");
@@ -305,9 +393,9 @@ fn c24_q_peersharing_idle_done() {
 // ---------------------------------------------------------------------------------------------
 // blockfetch
 // ---------------------------------------------------------------------------------------------
-mod bf {
+pub mod bf {
     use super::*;
-    use proto::blockfetch::{Message, State};
+    pub use proto::blockfetch::{Message, State};
 
     #[derive(Clone, Copy, PartialEq, Eq)]
     pub enum Cls {
@@ -326,9 +414,8 @@ mod bf {
         }
     }
 
-    pub fn any_state() -> State {
-        let k: u8 = kani::any();
-        kani::assume(k < 5);
+    pub const N_STATE: u8 = 5;
+    pub fn state_k(k: u8) -> State {
         match k {
             0 => State::Idle,
             1 => State::Busy((any_point(), any_point())),
@@ -338,9 +425,8 @@ mod bf {
         }
     }
 
-    pub fn any_msg() -> Message {
-        let k: u8 = kani::any();
-        kani::assume(k < 6);
+    pub const N_MSG: u8 = 6;
+    pub fn msg_k(k: u8) -> Message {
         match k {
             0 => Message::RequestRange((any_point(), any_point())),
             1 => Message::ClientDone,
@@ -364,51 +450,41 @@ mod bf {
         }
     }
 
-    pub fn check(st: &State, msg: &Message) {
-        let want = spec(cls(st), msg);
-        let r = st.apply(msg);
-        assert!(r.is_ok() == want.is_some(), "accepted exactly when the specification allows the message in this state");
-        if let Ok(n) = &r {
-            assert!(Some(cls(n)) == want, "next state class is the prescribed one");
-            match (msg, n) {
-                (Message::RequestRange((a, b)), State::Busy((a2, b2))) => {
-                    assert!(eq_point(a, a2) && eq_point(b, b2), "Busy carries the requested range")
-                }
-                (Message::Block(b), State::Streaming(Some(b2))) => assert!(eq_bytes1(b, b2), "Streaming carries the received block"),
-                (Message::StartBatch, State::Streaming(None)) => {}
-                (Message::ClientDone, State::Done) => {}
-                (Message::NoBlocks, State::Idle) | (Message::BatchDone, State::Idle) => {}
-                _ => assert!(false, "carried payload has the prescribed shape"),
+    pub fn excluded(_s: Cls, _m: &Message) -> bool {
+        false
+    }
+
+    pub fn witness(st: &State, m: &Message) -> bool {
+        matches!(st, State::Streaming(Some(_))) && matches!(m, Message::Block(_))
+    }
+
+    pub fn payload(_st: &State, msg: &Message, n: &State) {
+        match (msg, n) {
+            (Message::RequestRange((a, b)), State::Busy((a2, b2))) => {
+                assert!(eq_point(a, a2) && eq_point(b, b2), "Busy carries the requested range")
             }
+            (Message::Block(b), State::Streaming(Some(b2))) => assert!(eq_bytes1(b, b2), "Streaming carries the received block"),
+            (Message::StartBatch, State::Streaming(None)) => {}
+            (Message::ClientDone, State::Done) => {}
+            (Message::NoBlocks, State::Idle) | (Message::BatchDone, State::Idle) => {}
+            _ => assert!(false, "carried payload has the prescribed shape"),
         }
-        kani::cover!(r.is_ok() && matches!(msg, Message::RequestRange((Point::Specific(_, h), _)) if h.len() == 1), "RequestRange with a hash accepted");
-        kani::cover!(r.is_ok() && matches!(msg, Message::Block(b) if b.len() == 1), "Block accepted");
-        kani::cover!(r.is_ok() && matches!(msg, Message::BatchDone), "BatchDone accepted");
-        kani::cover!(r.is_ok() && matches!(msg, Message::ClientDone), "ClientDone accepted");
-        kani::cover!(r.is_err() && matches!(st, State::Done), "Done accepts nothing");
-        kani::cover!(r.is_err() && matches!(st, State::Busy(_)), "wrong message refused in Busy");
-        core::mem::forget(r);
     }
 }
 
-/// blockfetch: whole (state, message) table
-/// bound: state in {Idle, Busy(range), Streaming(None), Streaming(Some(0..1 byte)), Done}, all 6 message variants, points Origin or Specific(any u64, 0..1 byte hash), block body 0..1 byte; unwind 3
-#[kani::proof]
-#[kani::unwind(3)]
-fn c24_q_blockfetch() {
-    let st = bf::any_state();
-    let msg = bf::any_msg();
-    bf::check(&st, &msg);
-    core::mem::forget(st);
-    core::mem::forget(msg);
-}
+// bound: blockfetch: state in {Idle, Busy(range), Streaming(None), Streaming(Some(0..1 byte)), Done} x all 6 message variants, points Origin or Specific(any u64, 0..1 byte hash), block body 0..1 byte; unwind 3
+table!(c24_q_blockfetch, bf, 3);
+// bound: blockfetch, one allowed transition, scalars symbolic: carried range / block body (and Streaming(None) after StartBatch); unwind 3
+carry!(c24_q_blockfetch_c_request, bf, 0, 1, 0, 3);
+carry!(c24_q_blockfetch_c_startbatch, bf, 1, 2, 2, 3);
+carry!(c24_q_blockfetch_c_block, bf, 2, 4, 4, 3);
 
 // ---------------------------------------------------------------------------------------------
 // chainsync (content type = HeaderContent, the instantiation used by AnyMessage)
 // ---------------------------------------------------------------------------------------------
-mod cs {
+pub mod cs {
     use super::*;
-    use proto::chainsync::{Data, HeaderContent, Tip};
+    pub use proto::chainsync::{Data, HeaderContent, Tip};
     pub type Message = proto::chainsync::Message<HeaderContent>;
     pub type State = proto::chainsync::State<HeaderContent>;
 
@@ -448,10 +524,9 @@ mod cs {
         a.variant == b.variant && a.byron_prefix == b.byron_prefix && eq_bytes1(&a.cbor, &b.cbor)
     }
 
-    /// state kinds lo..hi (0..=3 Idle(..), 4 CanAwait, 5 MustReply, 6 Intersect, 7 Done)
-    pub fn any_state_in(lo: u8, hi: u8) -> State {
-        let k: u8 = kani::any();
-        kani::assume(lo <= k && k < hi);
+    /// state kinds: 0..=3 Idle(..), 4 CanAwait, 5 MustReply, 6 Intersect, 7 Done
+    pub const N_STATE: u8 = 8;
+    pub fn state_k(k: u8) -> State {
         match k {
             0 => State::Idle(Data::New),
             1 => State::Idle(Data::Drained),
@@ -464,9 +539,8 @@ mod cs {
         }
     }
 
-    pub fn any_msg() -> Message {
-        let k: u8 = kani::any();
-        kani::assume(k < 8);
+    pub const N_MSG: u8 = 8;
+    pub fn msg_k(k: u8) -> Message {
         match k {
             0 => Message::RequestNext,
             1 => Message::AwaitReply,
@@ -496,89 +570,52 @@ mod cs {
         }
     }
 
-    pub fn check(st: &State, msg: &Message) {
-        let r = check_nocover(st, msg);
-        kani::cover!(r && matches!(msg, Message::RollForward(c, _) if c.cbor.len() == 1) && matches!(st, State::MustReply), "RollForward accepted in MustReply");
-        kani::cover!(r && matches!(msg, Message::RollBackward(..)) && matches!(st, State::CanAwait), "RollBackward accepted in CanAwait");
-        kani::cover!(r && matches!(msg, Message::FindIntersect(p) if p.len() == 1), "FindIntersect with one point accepted");
-        kani::cover!(r && matches!(msg, Message::IntersectFound(..)), "IntersectFound accepted");
-        kani::cover!(r && matches!(msg, Message::Done), "Done accepted");
-        kani::cover!(!r && matches!(st, State::Done), "Done accepts nothing");
-        kani::cover!(!r && matches!(st, State::MustReply) && matches!(msg, Message::AwaitReply), "AwaitReply refused in MustReply");
+    pub fn excluded(_s: Cls, _m: &Message) -> bool {
+        false
     }
 
-    /// returns whether the message was accepted
-    pub fn check_nocover(st: &State, msg: &Message) -> bool {
-        let want = spec(cls(st), msg);
-        let r = st.apply(msg);
-        assert!(r.is_ok() == want.is_some(), "accepted exactly when the specification allows the message in this state");
-        if let Ok(n) = &r {
-            assert!(Some(cls(n)) == want, "next state class is the prescribed one");
-            match (msg, n) {
-                (Message::RequestNext, State::CanAwait) => {}
-                (Message::AwaitReply, State::MustReply) => {}
-                (Message::Done, State::Done) => {}
-                (Message::FindIntersect(p), State::Intersect(q)) => assert!(eq_points1(p, q), "Intersect carries the requested points"),
-                (Message::RollForward(c, t), State::Idle(Data::Content(c2, t2))) => {
-                    assert!(eq_content(c, c2) && eq_tip(t, t2), "Idle carries the received content and tip")
-                }
-                (Message::RollBackward(p, t), State::Idle(Data::Rollback(p2, t2))) => {
-                    assert!(eq_point(p, p2) && eq_tip(t, t2), "Idle carries the rollback point and tip")
-                }
-                (Message::IntersectFound(p, t), State::Idle(Data::Intersection(p2, t2))) => {
-                    assert!(eq_point(p, p2) && eq_tip(t, t2), "Idle carries the intersection and tip")
-                }
-                (Message::IntersectNotFound(t), State::Idle(Data::NoIntersection(t2))) => assert!(eq_tip(t, t2), "Idle carries the tip"),
-                _ => assert!(false, "carried payload has the prescribed shape"),
+    pub fn witness(st: &State, m: &Message) -> bool {
+        matches!(st, State::MustReply) && matches!(m, Message::RollForward(..))
+    }
+
+    pub fn payload(_st: &State, msg: &Message, n: &State) {
+        match (msg, n) {
+            (Message::RequestNext, State::CanAwait) => {}
+            (Message::AwaitReply, State::MustReply) => {}
+            (Message::Done, State::Done) => {}
+            (Message::FindIntersect(p), State::Intersect(q)) => assert!(eq_points1(p, q), "Intersect carries the requested points"),
+            (Message::RollForward(c, t), State::Idle(Data::Content(c2, t2))) => {
+                assert!(eq_content(c, c2) && eq_tip(t, t2), "Idle carries the received content and tip")
             }
+            (Message::RollBackward(p, t), State::Idle(Data::Rollback(p2, t2))) => {
+                assert!(eq_point(p, p2) && eq_tip(t, t2), "Idle carries the rollback point and tip")
+            }
+            (Message::IntersectFound(p, t), State::Idle(Data::Intersection(p2, t2))) => {
+                assert!(eq_point(p, p2) && eq_tip(t, t2), "Idle carries the intersection and tip")
+            }
+            (Message::IntersectNotFound(t), State::Idle(Data::NoIntersection(t2))) => assert!(eq_tip(t, t2), "Idle carries the tip"),
+            _ => assert!(false, "carried payload has the prescribed shape"),
         }
-        let ok = r.is_ok();
-        core::mem::forget(r);
-        ok
     }
 }
 
-macro_rules! cs_class {
-    ($name:ident, $lo:expr, $hi:expr) => {
-        #[kani::proof]
-        #[kani::unwind(3)]
-        fn $name() {
-            let st = cs::any_state_in($lo, $hi);
-            let msg = cs::any_msg();
-            cs::check_nocover(&st, &msg);
-            kani::cover!(cs::spec(cs::cls(&st), &msg).is_none(), "a refused pair is reached");
-            kani::cover!(matches!(&msg, cs::Message::RollForward(c, _) if c.cbor.len() == 1), "RollForward with content reached");
-            kani::cover!(matches!(&msg, cs::Message::FindIntersect(p) if p.len() == 1), "FindIntersect with one point reached");
-            core::mem::forget(st);
-            core::mem::forget(msg);
-        }
-    };
-}
-// bound: chainsync, state class concrete per harness (Idle: New|Drained|NoIntersection(tip)|Content(c,tip) symbolic; Intersect: 0..1 points), all 8 message variants symbolic; points Origin or Specific(any u64, 0..1 byte hash); header content: any variant byte, any optional byron prefix, 0..1 cbor byte; FindIntersect 0..1 points; unwind 3
-cs_class!(c24_q_chainsync_idle, 0, 4);
-cs_class!(c24_q_chainsync_canawait, 4, 5);
-cs_class!(c24_q_chainsync_mustreply, 5, 6);
-cs_class!(c24_q_chainsync_intersect, 6, 7);
-cs_class!(c24_q_chainsync_done, 7, 8);
-
-/// chainsync: whole (state, message) table in one query (state class symbolic as well)
-/// bound: as the c24_q_chainsync_* family with the state class symbolic; unwind 3
-#[kani::proof]
-#[kani::unwind(3)]
-fn c24_t_chainsync() {
-    let st = cs::any_state_in(0, 8);
-    let msg = cs::any_msg();
-    cs::check(&st, &msg);
-    core::mem::forget(st);
-    core::mem::forget(msg);
-}
+// bound: chainsync: state in {Idle(New|Drained|NoIntersection(tip)|Content(c,tip)), CanAwait, MustReply, Intersect(0..1 points), Done} x all 8 message variants; points Origin or Specific(any u64, 0..1 byte hash); header content: any variant byte, any optional byron prefix, 0..1 cbor byte; FindIntersect 0..1 points; unwind 3
+table!(c24_q_chainsync, cs, 3);
+// bound: chainsync, one allowed transition (source kinds of one class symbolic), scalars symbolic, payload shapes as in c24_q_chainsync: carried points / content / tip; unwind 3
+carry!(c24_q_chainsync_c_findintersect, cs, 0, 4, 4, 3);
+carry!(c24_q_chainsync_c_canawait_rollforward, cs, 4, 5, 2, 3);
+carry!(c24_q_chainsync_c_canawait_rollbackward, cs, 4, 5, 3, 3);
+carry!(c24_q_chainsync_c_mustreply_rollforward, cs, 5, 6, 2, 3);
+carry!(c24_q_chainsync_c_mustreply_rollbackward, cs, 5, 6, 3, 3);
+carry!(c24_q_chainsync_c_intersectfound, cs, 6, 7, 5, 3);
+carry!(c24_q_chainsync_c_intersectnotfound, cs, 6, 7, 6, 3);
 
 // ---------------------------------------------------------------------------------------------
 // txsubmission
 // ---------------------------------------------------------------------------------------------
-mod tx {
+pub mod tx {
     use super::*;
-    use proto::txsubmission::{EraTxBody, EraTxId, Message, State, TxIdAndSize};
+    pub use proto::txsubmission::{EraTxBody, EraTxId, Message, State, TxIdAndSize};
 
     #[derive(Clone, Copy, PartialEq, Eq)]
     pub enum Cls {
@@ -602,7 +639,7 @@ mod tx {
     }
 
     pub fn any_bodies1() -> Vec<EraTxBody> {
-        if kani::any() {
+        if vlen() == 0 {
             Vec::new()
         } else {
             vec![EraTxBody(kani::any(), any_bytes1())]
@@ -610,7 +647,7 @@ mod tx {
     }
 
     pub fn any_ids1() -> Vec<EraTxId> {
-        if kani::any() {
+        if vlen() == 0 {
             Vec::new()
         } else {
             vec![EraTxId(kani::any(), any_bytes1())]
@@ -618,16 +655,15 @@ mod tx {
     }
 
     pub fn any_idsizes1() -> Vec<TxIdAndSize<EraTxId>> {
-        if kani::any() {
+        if vlen() == 0 {
             Vec::new()
         } else {
             vec![TxIdAndSize(EraTxId(kani::any(), any_bytes1()), kani::any())]
         }
     }
 
-    pub fn any_state() -> State {
-        let k: u8 = kani::any();
-        kani::assume(k < 6);
+    pub const N_STATE: u8 = 6;
+    pub fn state_k(k: u8) -> State {
         match k {
             0 => State::Init,
             1 => State::Idle,
@@ -638,9 +674,8 @@ mod tx {
         }
     }
 
-    pub fn any_msg() -> Message {
-        let k: u8 = kani::any();
-        kani::assume(k < 6);
+    pub const N_MSG: u8 = 6;
+    pub fn msg_k(k: u8) -> Message {
         match k {
             0 => Message::Init,
             1 => Message::RequestTxIds(kani::any(), kani::any(), kani::any()),
@@ -666,8 +701,8 @@ mod tx {
         }
     }
 
-    /// the five (state class, message) pairs on which the current tree is known to deviate; each has its own harness
-    pub fn is_finding_case(s: Cls, m: &Message) -> bool {
+    /// the five (state class, message) pairs on which the current tree deviates; each has its own harness
+    pub fn excluded(s: Cls, m: &Message) -> bool {
         match (s, m) {
             (Cls::Idle, Message::RequestTxIds(false, _, _)) => true,
             (Cls::TxIdsNonBlocking, Message::ReplyTxIds(_)) => true,
@@ -678,81 +713,50 @@ mod tx {
         }
     }
 
-    pub fn check(st: &State, msg: &Message) {
-        let want = spec(cls(st), msg);
-        let r = st.apply(msg);
-        assert!(r.is_ok() == want.is_some(), "accepted exactly when the specification allows the message in this state");
-        if let Ok(n) = &r {
-            assert!(Some(cls(n)) == want, "next state class is the prescribed one");
-        }
-        kani::cover!(r.is_ok(), "some message accepted");
-        kani::cover!(r.is_err(), "some message refused");
-        core::mem::forget(r);
+    pub fn witness(st: &State, m: &Message) -> bool {
+        matches!(st, State::Idle) && matches!(m, Message::RequestTxs(_))
     }
 }
 
-/// txsubmission: whole (state, message) table except the five pairs that have their own harness
-/// bound: all 6 state classes (Txs with 0..1 bodies), all 6 message variants (flag/ack/req any, vectors 0..1 elements, ids/bodies 0..1 byte, era any u16); unwind 3
-/// assume: excluded here and decided by c24_q_txsub_*: (Idle, RequestTxIds(non-blocking)), (TxIdsNonBlocking, ReplyTxIds), (TxIdsBlocking, ReplyTxIds), (TxIdsBlocking, Done), (Txs, ReplyTxs)
-#[kani::proof]
-#[kani::unwind(3)]
-fn c24_q_txsubmission() {
-    let st = tx::any_state();
-    let msg = tx::any_msg();
-    kani::assume(!tx::is_finding_case(tx::cls(&st), &msg));
-    tx::check(&st, &msg);
-    use proto::txsubmission::Message;
-    kani::cover!(matches!(&st, proto::txsubmission::State::Idle) && matches!(&msg, Message::RequestTxIds(true, _, _)), "blocking request in Idle reached");
-    kani::cover!(matches!(&st, proto::txsubmission::State::Idle) && matches!(&msg, Message::RequestTxs(v) if v.len() == 1), "RequestTxs in Idle reached");
-    kani::cover!(matches!(&st, proto::txsubmission::State::Init) && matches!(&msg, Message::Init), "Init in Init reached");
-    kani::cover!(matches!(&st, proto::txsubmission::State::Txs(_)) && matches!(&msg, Message::ReplyTxIds(_)), "ReplyTxIds in Txs reached");
-    core::mem::forget(st);
-    core::mem::forget(msg);
-}
+// assume: txsubmission pairs excluded from c24_q_txsubmission and decided by c24_q_txsub_*: (Idle, RequestTxIds(non-blocking)), (TxIdsNonBlocking, ReplyTxIds), (TxIdsBlocking, ReplyTxIds), (TxIdsBlocking, Done), (Txs, ReplyTxs)
+// bound: txsubmission: all 6 state classes (Txs with 0..1 bodies) x all 6 message variants (flag/ack/req any, vectors 0..1 elements, ids/bodies 0..1 byte, era any u16); the specification prescribes no carried data for this protocol; unwind 3
+table!(c24_q_txsubmission, tx, 3);
 
 macro_rules! txsub_case {
-    ($name:ident, $st:expr, $msg:expr) => {
+    ($name:ident, $sk:expr, $msg:expr) => {
         #[kani::proof]
         #[kani::unwind(3)]
         fn $name() {
-            let st: proto::txsubmission::State = $st;
-            let msg: proto::txsubmission::Message = $msg;
-            kani::cover!(tx::is_finding_case(tx::cls(&st), &msg), "this is one of the excluded pairs");
-            tx::check(&st, &msg);
+            any_vlen();
+            let st = tx::state_k($sk);
+            let msg: tx::Message = $msg;
+            kani::cover!(tx::excluded(tx::cls(&st), &msg), "this is one of the pairs excluded from c24_q_txsubmission");
+            let want = tx::spec(tx::cls(&st), &msg);
+            let r = st.apply(&msg);
+            assert!(r.is_ok() == want.is_some(), "accepted exactly when the specification allows the message in this state");
+            if let Ok(n) = &r {
+                assert!(Some(tx::cls(n)) == want, "next state class is the prescribed one");
+            }
+            core::mem::forget(r);
             core::mem::forget(st);
             core::mem::forget(msg);
         }
     };
 }
-// bound: one (state class, message variant) pair of the txsubmission table, scalars symbolic, vectors 0..1 elements; unwind 3. finding: expected FAILED on the current tree
-txsub_case!(c24_q_txsub_idle_nonblocking, proto::txsubmission::State::Idle, proto::txsubmission::Message::RequestTxIds(false, kani::any(), kani::any()));
-txsub_case!(c24_q_txsub_nonblocking_reply, proto::txsubmission::State::TxIdsNonBlocking, proto::txsubmission::Message::ReplyTxIds(tx::any_idsizes1()));
-txsub_case!(c24_q_txsub_blocking_reply, proto::txsubmission::State::TxIdsBlocking, proto::txsubmission::Message::ReplyTxIds(tx::any_idsizes1()));
-txsub_case!(c24_q_txsub_blocking_done, proto::txsubmission::State::TxIdsBlocking, proto::txsubmission::Message::Done);
-txsub_case!(c24_q_txsub_txs_reply, proto::txsubmission::State::Txs(tx::any_bodies1()), proto::txsubmission::Message::ReplyTxs(tx::any_bodies1()));
+// bound: one (state class, message variant) pair of the txsubmission table, scalars symbolic, vectors 0..1 elements; unwind 3
+// finding: c24_q_txsub_* are expected FAILED on the current tree
+txsub_case!(c24_q_txsub_idle_nonblocking, 1, tx::Message::RequestTxIds(false, kani::any(), kani::any()));
+txsub_case!(c24_q_txsub_nonblocking_reply, 2, tx::msg_k(2));
+txsub_case!(c24_q_txsub_blocking_reply, 3, tx::msg_k(2));
+txsub_case!(c24_q_txsub_blocking_done, 3, tx::Message::Done);
+txsub_case!(c24_q_txsub_txs_reply, 4, tx::msg_k(4));
 
 // ---------------------------------------------------------------------------------------------
 // leios-notify (oracle: module documentation)
 // ---------------------------------------------------------------------------------------------
-fn any_cbor1() -> proto::AnyCbor {
-    proto::AnyCbor::from_raw_bytes(any_bytes1())
-}
-
-fn any_cbors1() -> Vec<proto::AnyCbor> {
-    if kani::any() {
-        Vec::new()
-    } else {
-        vec![any_cbor1()]
-    }
-}
-
-fn eq_cbors1(a: &[proto::AnyCbor], b: &[proto::AnyCbor]) -> bool {
-    a.len() == b.len() && (a.len() == 0 || (a.len() == 1 && eq_bytes1(a[0].raw_bytes(), b[0].raw_bytes())))
-}
-
-mod ln {
+pub mod ln {
     use super::*;
-    use proto::leiosnotify::{Message, Notification, State};
+    pub use proto::leiosnotify::{Message, Notification, State};
 
     #[derive(Clone, Copy, PartialEq, Eq)]
     pub enum Cls {
@@ -769,9 +773,8 @@ mod ln {
         }
     }
 
-    pub fn any_state() -> State {
-        let k: u8 = kani::any();
-        kani::assume(k < 5);
+    pub const N_STATE: u8 = 5;
+    pub fn state_k(k: u8) -> State {
         match k {
             0 => State::Idle(None),
             1 => State::Idle(Some(Notification::BlockOffer(any_point(), kani::any()))),
@@ -781,9 +784,8 @@ mod ln {
         }
     }
 
-    pub fn any_msg() -> Message {
-        let k: u8 = kani::any();
-        kani::assume(k < 6);
+    pub const N_MSG: u8 = 6;
+    pub fn msg_k(k: u8) -> Message {
         match k {
             0 => Message::RequestNext,
             1 => Message::BlockAnnouncement(any_cbor1()),
@@ -794,7 +796,7 @@ mod ln {
         }
     }
 
-    /// module documentation of leiosnotify.rs: Idle (client) --RequestNext--> Busy, --Done--> Done; Busy (server) --any one announcement/offer--> Idle
+    /// module documentation of leiosnotify.rs: Idle (client) --RequestNext--> Busy, --Done--> Done; Busy (server) --one announcement/offer/votes--> Idle
     pub fn spec(s: Cls, m: &Message) -> Option<Cls> {
         match (s, m) {
             (Cls::Idle, Message::RequestNext) => Some(Cls::Busy),
@@ -807,54 +809,45 @@ mod ln {
         }
     }
 
-    pub fn check(st: &State, msg: &Message) {
-        let want = spec(cls(st), msg);
-        let r = st.apply(msg);
-        assert!(r.is_ok() == want.is_some(), "accepted exactly when the specification allows the message in this state");
-        if let Ok(n) = &r {
-            assert!(Some(cls(n)) == want, "next state class is the prescribed one");
-            match (msg, n) {
-                (Message::RequestNext, State::Busy) => {}
-                (Message::Done, State::Done) => {}
-                (Message::BlockAnnouncement(h), State::Idle(Some(Notification::BlockAnnouncement(h2)))) => {
-                    assert!(eq_bytes1(h.raw_bytes(), h2.raw_bytes()), "Idle carries the announced header")
-                }
-                (Message::BlockOffer(p, s), State::Idle(Some(Notification::BlockOffer(p2, s2)))) => {
-                    assert!(eq_point(p, p2) && *s == *s2, "Idle carries the offered EB and size")
-                }
-                (Message::BlockTxsOffer(p), State::Idle(Some(Notification::BlockTxsOffer(p2)))) => assert!(eq_point(p, p2), "Idle carries the offered EB"),
-                (Message::Votes(v), State::Idle(Some(Notification::Votes(v2)))) => assert!(eq_cbors1(v, v2), "Idle carries the votes"),
-                _ => assert!(false, "carried payload has the prescribed shape"),
+    pub fn excluded(_s: Cls, _m: &Message) -> bool {
+        false
+    }
+
+    pub fn witness(st: &State, m: &Message) -> bool {
+        matches!(st, State::Busy) && matches!(m, Message::Votes(_))
+    }
+
+    pub fn payload(_st: &State, msg: &Message, n: &State) {
+        match (msg, n) {
+            (Message::RequestNext, State::Busy) => {}
+            (Message::Done, State::Done) => {}
+            (Message::BlockAnnouncement(h), State::Idle(Some(Notification::BlockAnnouncement(h2)))) => {
+                assert!(eq_bytes1(h.raw_bytes(), h2.raw_bytes()), "Idle carries the announced header")
             }
+            (Message::BlockOffer(p, s), State::Idle(Some(Notification::BlockOffer(p2, s2)))) => {
+                assert!(eq_point(p, p2) && *s == *s2, "Idle carries the offered EB and size")
+            }
+            (Message::BlockTxsOffer(p), State::Idle(Some(Notification::BlockTxsOffer(p2)))) => assert!(eq_point(p, p2), "Idle carries the offered EB"),
+            (Message::Votes(v), State::Idle(Some(Notification::Votes(v2)))) => assert!(eq_cbors1(v, v2), "Idle carries the votes"),
+            _ => assert!(false, "carried payload has the prescribed shape"),
         }
-        kani::cover!(r.is_ok() && matches!(msg, Message::BlockAnnouncement(h) if h.raw_bytes().len() == 1), "announcement accepted");
-        kani::cover!(r.is_ok() && matches!(msg, Message::Votes(v) if v.len() == 1), "votes accepted");
-        kani::cover!(r.is_ok() && matches!(msg, Message::BlockOffer(..)), "offer accepted");
-        kani::cover!(r.is_ok() && matches!(msg, Message::Done), "Done accepted");
-        kani::cover!(r.is_err() && matches!(st, State::Done), "Done accepts nothing");
-        kani::cover!(r.is_err() && matches!(st, State::Busy), "wrong message refused in Busy");
-        core::mem::forget(r);
     }
 }
 
-/// leios-notify: whole (state, message) table
-/// bound: state in {Idle(None), Idle(Some(BlockOffer)), Idle(Some(Votes 0..1)), Busy, Done}, all 6 message variants, raw CBOR payloads 0..1 byte, votes 0..1 elements; unwind 3
-#[kani::proof]
-#[kani::unwind(3)]
-fn c24_q_leiosnotify() {
-    let st = ln::any_state();
-    let msg = ln::any_msg();
-    ln::check(&st, &msg);
-    core::mem::forget(st);
-    core::mem::forget(msg);
-}
+// bound: leios-notify: state in {Idle(None), Idle(Some(BlockOffer)), Idle(Some(Votes 0..1)), Busy, Done} x all 6 message variants, raw CBOR payloads 0..1 byte, votes 0..1 elements; unwind 3
+table!(c24_q_leiosnotify, ln, 3);
+// bound: leios-notify, one allowed transition Busy --m--> Idle(Some(notification)), scalars symbolic: carried notification; unwind 3
+carry!(c24_q_leiosnotify_c_announcement, ln, 3, 4, 1, 3);
+carry!(c24_q_leiosnotify_c_offer, ln, 3, 4, 2, 3);
+carry!(c24_q_leiosnotify_c_txsoffer, ln, 3, 4, 3, 3);
+carry!(c24_q_leiosnotify_c_votes, ln, 3, 4, 4, 3);
 
 // ---------------------------------------------------------------------------------------------
 // leios-fetch (oracle: module documentation)
 // ---------------------------------------------------------------------------------------------
-mod lf {
+pub mod lf {
     use super::*;
-    use proto::leiosfetch::{Bitmaps, Message, Response, State};
+    pub use proto::leiosfetch::{Bitmaps, Message, Response, State};
     use std::collections::BTreeMap;
 
     #[derive(Clone, Copy, PartialEq, Eq)]
@@ -874,10 +867,15 @@ mod lf {
         }
     }
 
-    /// BTreeMap: empty or exactly one entry (engineering rule)
-    pub fn any_bitmaps(one: bool) -> Bitmaps {
+    /// number of entries of every Bitmaps selector built here (BTreeMap: 0 or exactly 1, engineering rule); concrete per harness
+    static mut BMLEN: usize = 0;
+    pub fn set_bmlen(n: usize) {
+        unsafe { BMLEN = n }
+    }
+
+    pub fn any_bitmaps() -> Bitmaps {
         let mut m = BTreeMap::new();
-        if one {
+        if unsafe { BMLEN } == 1 {
             let k: u16 = kani::any();
             let v: u64 = kani::any();
             m.insert(k, v);
@@ -896,28 +894,26 @@ mod lf {
         }
     }
 
-    /// state kinds lo..hi (0..=2 Idle(..), 3 AwaitingBlock, 4 AwaitingBlockTxs, 5 Done)
-    pub fn any_state_in(lo: u8, hi: u8, one: bool) -> State {
-        let k: u8 = kani::any();
-        kani::assume(lo <= k && k < hi);
+    /// state kinds: 0..=2 Idle(..), 3 AwaitingBlock, 4 AwaitingBlockTxs, 5 Done
+    pub const N_STATE: u8 = 6;
+    pub fn state_k(k: u8) -> State {
         match k {
             0 => State::Idle(None),
             1 => State::Idle(Some((any_point(), Response::Block(any_cbor1())))),
             2 => State::Idle(Some((any_point(), Response::BlockTxs { txs: any_cbors1() }))),
             3 => State::AwaitingBlock(any_point()),
-            4 => State::AwaitingBlockTxs(any_point(), any_bitmaps(one)),
+            4 => State::AwaitingBlockTxs(any_point(), any_bitmaps()),
             _ => State::Done,
         }
     }
 
-    pub fn any_msg(one: bool) -> Message {
-        let k: u8 = kani::any();
-        kani::assume(k < 5);
+    pub const N_MSG: u8 = 5;
+    pub fn msg_k(k: u8) -> Message {
         match k {
             0 => Message::BlockRequest(any_point()),
             1 => Message::Block(any_cbor1()),
-            2 => Message::BlockTxsRequest(any_point(), any_bitmaps(one)),
-            3 => Message::BlockTxs { point: any_point(), bitmaps: any_bitmaps(one), txs: any_cbors1() },
+            2 => Message::BlockTxsRequest(any_point(), any_bitmaps()),
+            3 => Message::BlockTxs { point: any_point(), bitmaps: any_bitmaps(), txs: any_cbors1() },
             _ => Message::Done,
         }
     }
@@ -935,90 +931,78 @@ mod lf {
         }
     }
 
-    /// returns whether the message was accepted
-    pub fn check_nocover(st: &State, msg: &Message) -> bool {
-        let want = spec(cls(st), msg);
-        let r = st.apply(msg);
-        assert!(r.is_ok() == want.is_some(), "accepted exactly when the specification allows the message in this state");
-        if let Ok(n) = &r {
-            assert!(Some(cls(n)) == want, "next state class is the prescribed one");
-            match (st, msg, n) {
-                (_, Message::Done, State::Done) => {}
-                (_, Message::BlockRequest(p), State::AwaitingBlock(p2)) => assert!(eq_point(p, p2), "AwaitingBlock carries the requested EB"),
-                (_, Message::BlockTxsRequest(p, b), State::AwaitingBlockTxs(p2, b2)) => {
-                    assert!(eq_point(p, p2) && eq_bitmaps(b, b2), "AwaitingBlockTxs carries the requested EB and bitmaps")
-                }
-                (State::AwaitingBlock(eb), Message::Block(b), State::Idle(Some((eb2, Response::Block(b2))))) => {
-                    assert!(eq_point(eb, eb2) && eq_bytes1(b.raw_bytes(), b2.raw_bytes()), "Idle carries the EB asked for and the delivered body")
-                }
-                (State::AwaitingBlockTxs(eb, _), Message::BlockTxs { txs, .. }, State::Idle(Some((eb2, Response::BlockTxs { txs: txs2 })))) => {
-                    assert!(eq_point(eb, eb2) && eq_cbors1(txs, txs2), "Idle carries the EB asked for and the delivered txs")
-                }
-                _ => assert!(false, "carried payload has the prescribed shape"),
+    pub fn excluded(_s: Cls, _m: &Message) -> bool {
+        false
+    }
+
+    pub fn witness(st: &State, m: &Message) -> bool {
+        matches!(st, State::AwaitingBlockTxs(..)) && matches!(m, Message::BlockTxs { .. })
+    }
+
+    pub fn payload(st: &State, msg: &Message, n: &State) {
+        match (st, msg, n) {
+            (_, Message::Done, State::Done) => {}
+            (_, Message::BlockRequest(p), State::AwaitingBlock(p2)) => assert!(eq_point(p, p2), "AwaitingBlock carries the requested EB"),
+            (_, Message::BlockTxsRequest(p, b), State::AwaitingBlockTxs(p2, b2)) => {
+                assert!(eq_point(p, p2) && eq_bitmaps(b, b2), "AwaitingBlockTxs carries the requested EB and bitmaps")
             }
+            (State::AwaitingBlock(eb), Message::Block(b), State::Idle(Some((eb2, Response::Block(b2))))) => {
+                assert!(eq_point(eb, eb2) && eq_bytes1(b.raw_bytes(), b2.raw_bytes()), "Idle carries the EB asked for and the delivered body")
+            }
+            (State::AwaitingBlockTxs(eb, _), Message::BlockTxs { txs, .. }, State::Idle(Some((eb2, Response::BlockTxs { txs: txs2 })))) => {
+                assert!(eq_point(eb, eb2) && eq_cbors1(txs, txs2), "Idle carries the EB asked for and the delivered txs")
+            }
+            _ => assert!(false, "carried payload has the prescribed shape"),
         }
-        let ok = r.is_ok();
-        core::mem::forget(r);
-        ok
     }
 }
 
-macro_rules! lf_class {
-    ($name:ident, $lo:expr, $hi:expr) => {
+// bound: leios-fetch: state in {Idle(None), Idle(Some(Block)), Idle(Some(BlockTxs 0..1)), AwaitingBlock(p), AwaitingBlockTxs(p, {}), Done} x message variants {BlockRequest, Block} / {BlockTxsRequest} / {BlockTxs, Done} (a Bitmaps-owning variant must be concrete: read back through a symbolic variant CBMC no longer sees that the BTreeMap is empty and unrolls clone_subtree: no verdict in 400 s), raw CBOR payloads 0..1 byte, tx lists 0..1 elements, Bitmaps = empty BTreeMap; unwind 3
+table!(c24_q_leiosfetch_m01, lf, 3, 0, 2);
+table!(c24_q_leiosfetch_m2, lf, 3, 2, 3);
+table!(c24_q_leiosfetch_m3, lf, 3, 3, 4);
+table!(c24_q_leiosfetch_m4, lf, 3, 4, 5);
+// bound: leios-fetch, one allowed transition, scalars symbolic, Bitmaps empty: carried EB / body / txs; unwind 3
+carry!(c24_q_leiosfetch_c_blockrequest, lf, 0, 3, 0, 3);
+carry!(c24_q_leiosfetch_c_blocktxsrequest, lf, 0, 3, 2, 3);
+carry!(c24_q_leiosfetch_c_block, lf, 3, 4, 1, 3);
+carry!(c24_q_leiosfetch_c_blocktxs_l0, lf, 4, 5, 3, 3, set_vlen(0));
+carry!(c24_q_leiosfetch_c_blocktxs_l1, lf, 4, 5, 3, 3, set_vlen(1));
+
+macro_rules! lf_bitmap1 {
+    ($name:ident, $sk:expr, $mk:expr) => {
         #[kani::proof]
-        #[kani::unwind(3)]
+        #[kani::unwind(4)]
         fn $name() {
-            let st = lf::any_state_in($lo, $hi, false);
-            let msg = lf::any_msg(false);
-            let ok = lf::check_nocover(&st, &msg);
-            kani::cover!(!ok, "a refused pair is reached");
-            kani::cover!(matches!(&msg, proto::leiosfetch::Message::BlockTxs { txs, .. } if txs.len() == 1), "BlockTxs with one tx reached");
-            kani::cover!(matches!(&msg, proto::leiosfetch::Message::Block(b) if b.raw_bytes().len() == 1), "Block with a body reached");
+            lf::set_bmlen(1);
+            set_vlen(1);
+            let st = lf::state_k($sk);
+            let msg = lf::msg_k($mk);
+            let want = lf::spec(lf::cls(&st), &msg);
+            let r = st.apply(&msg);
+            assert!(r.is_ok() && want.is_some(), "the pair is allowed by the specification and accepted");
+            if let Ok(n) = &r {
+                assert!(Some(lf::cls(n)) == want, "next state class is the prescribed one");
+                lf::payload(&st, &msg, n);
+            }
+            kani::cover!(r.is_ok(), "transition taken with a one-entry selector");
+            core::mem::forget(r);
             core::mem::forget(st);
             core::mem::forget(msg);
         }
     };
 }
-// bound: leios-fetch, state class concrete per harness (Idle: None|Some(Block)|Some(BlockTxs 0..1) symbolic), all 5 message variants symbolic, raw CBOR payloads 0..1 byte, tx lists 0..1 elements, Bitmaps = empty BTreeMap; unwind 3
-lf_class!(c24_q_leiosfetch_idle, 0, 3);
-lf_class!(c24_q_leiosfetch_awaitingblock, 3, 4);
-lf_class!(c24_q_leiosfetch_awaitingblocktxs, 4, 5);
-lf_class!(c24_q_leiosfetch_done, 5, 6);
-
-/// leios-fetch: the two transitions that clone a Bitmaps selector, with a one-entry BTreeMap
-/// bound: (Idle(None), BlockTxsRequest(p, {k: v})) and (AwaitingBlockTxs(p, {k: v}), BlockTxs{point, {k': v'}, 0..1 txs}), k any u16, v any u64; unwind 4
-#[kani::proof]
-#[kani::unwind(4)]
-fn c24_t_leiosfetch_bitmap1() {
-    use proto::leiosfetch::{Message, State};
-    let (st, msg) = if kani::any() {
-        (State::Idle(None), Message::BlockTxsRequest(any_point(), lf::any_bitmaps(true)))
-    } else {
-        (State::AwaitingBlockTxs(any_point(), lf::any_bitmaps(true)), Message::BlockTxs { point: any_point(), bitmaps: lf::any_bitmaps(true), txs: any_cbors1() })
-    };
-    let want = lf::spec(lf::cls(&st), &msg);
-    let r = st.apply(&msg);
-    assert!(r.is_ok() && want.is_some(), "both pairs are allowed by the specification and accepted");
-    if let Ok(n) = &r {
-        assert!(Some(lf::cls(n)) == want, "next state class is the prescribed one");
-        if let (Message::BlockTxsRequest(p, b), State::AwaitingBlockTxs(p2, b2)) = (&msg, n) {
-            assert!(eq_point(p, p2) && lf::eq_bitmaps(b, b2), "AwaitingBlockTxs carries the requested EB and bitmaps");
-        }
-    }
-    kani::cover!(matches!(&r, Ok(State::AwaitingBlockTxs(_, b)) if b.0.len() == 1), "one-entry selector carried over");
-    kani::cover!(matches!(&r, Ok(State::Idle(Some(_)))), "BlockTxs delivered");
-    core::mem::forget(r);
-    core::mem::forget(st);
-    core::mem::forget(msg);
-}
+// bound: leios-fetch, the two transitions that clone / drop a Bitmaps selector, with a one-entry BTreeMap {k: v}, k any u16, v any u64, other payloads one element; unwind 4
+lf_bitmap1!(c24_t_leiosfetch_bitmap1_request, 0, 2);
+lf_bitmap1!(c24_t_leiosfetch_bitmap1_blocktxs, 4, 3);
 
 // ---------------------------------------------------------------------------------------------
-// handshake (HashMap-free part): Accept / Refuse messages in the states that can be built without a HashMap
+// handshake (HashMap-free part): Accept / Refuse messages
 // ---------------------------------------------------------------------------------------------
-mod hs {
+pub mod hs {
     use super::*;
-    use proto::handshake::n2n::VersionData;
-    use proto::handshake::{DoneState, RefuseReason};
+    pub use proto::handshake::n2n::VersionData;
+    pub use proto::handshake::{DoneState, RefuseReason, VersionTable};
     pub type Message = proto::handshake::Message<VersionData>;
     pub type State = proto::handshake::State<VersionData>;
 
@@ -1035,11 +1019,10 @@ mod hs {
             && a.query == b.query
     }
 
-    pub fn any_reason() -> RefuseReason {
-        let k: u8 = kani::any();
-        kani::assume(k < 3);
+    /// reason kinds: 0 VersionMismatch(0..1 versions), 1 HandshakeDecodeError(n, ""), 2 Refused(n, "")
+    pub fn reason_k(k: u8) -> RefuseReason {
         match k {
-            0 => RefuseReason::VersionMismatch(if kani::any() { Vec::new() } else { vec![kani::any()] }),
+            0 => RefuseReason::VersionMismatch(if vlen() == 0 { Vec::new() } else { vec![kani::any()] }),
             1 => RefuseReason::HandshakeDecodeError(kani::any(), String::new()),
             _ => RefuseReason::Refused(kani::any(), String::new()),
         }
@@ -1054,29 +1037,37 @@ mod hs {
         }
     }
 
-    pub fn any_msg() -> Message {
-        if kani::any() {
-            Message::Accept(kani::any(), any_data())
-        } else {
-            Message::Refuse(any_reason())
+    /// message kinds: 0 Accept, 1..=3 Refuse(reason kind - 1)
+    pub fn msg_k(k: u8) -> Message {
+        match k {
+            0 => Message::Accept(kani::any(), any_data()),
+            j => Message::Refuse(reason_k(j - 1)),
         }
+    }
+
+    /// Confirm holding an empty proposed table. `RandomState::new()` reaches getrandom/futex; a fixed key pair is as
+    /// good for a map that is never hashed into (apply never reads the table).
+    pub fn confirm_empty() -> State {
+        use std::collections::hash_map::RandomState;
+        use std::collections::HashMap;
+        let rs: RandomState = unsafe { core::mem::transmute::<[u64; 2], RandomState>([0u64; 2]) };
+        State::Confirm(VersionTable { values: HashMap::with_hasher(rs) })
     }
 }
 
 /// handshake: Accept / Refuse are refused in Propose (client agency) and in Done
-/// bound: state in {Propose, Done(Accepted(n, data)), Done(Rejected(reason))}, message Accept(any version, any n2n VersionData) or Refuse(VersionMismatch(0..1 versions) | HandshakeDecodeError(n, "") | Refused(n, "")); unwind 3
+/// bound: state in {Propose, Done(Accepted(n, data)), Done(Rejected(reason))} x message Accept(any version, any n2n VersionData) or Refuse(VersionMismatch(0..1 versions) | HandshakeDecodeError(n, "") | Refused(n, "")); unwind 3
 #[kani::proof]
 #[kani::unwind(3)]
 fn c24_q_handshake_noagency() {
-    use proto::handshake::DoneState;
-    let k: u8 = kani::any();
-    kani::assume(k < 3);
+    any_vlen();
+    let k = any_kind(0, 3);
     let st: hs::State = match k {
         0 => hs::State::Propose,
-        1 => hs::State::Done(DoneState::Accepted(kani::any(), hs::any_data())),
-        _ => hs::State::Done(DoneState::Rejected(hs::any_reason())),
+        1 => hs::State::Done(hs::DoneState::Accepted(kani::any(), hs::any_data())),
+        _ => hs::State::Done(hs::DoneState::Rejected(hs::reason_k(any_kind(0, 3)))),
     };
-    let msg = hs::any_msg();
+    let msg = hs::msg_k(any_kind(0, 4));
     let r = st.apply(&msg);
     assert!(r.is_err(), "spec: server messages are refused in Propose (client agency) and Done accepts nothing");
     kani::cover!(matches!(&st, hs::State::Propose) && matches!(&msg, hs::Message::Accept(..)), "Accept in Propose reached");
@@ -1086,43 +1077,43 @@ fn c24_q_handshake_noagency() {
     core::mem::forget(msg);
 }
 
-/// handshake: Confirm --Accept--> Done(Accepted), Confirm --Refuse--> Done(Rejected), with the received data carried
-/// bound: state Confirm(empty version table: HashMap::with_hasher on a fixed RandomState, never hashed), message as in c24_q_handshake_noagency; unwind 3
-/// assume: the proposed version table held by Confirm is empty (apply never reads it)
-#[kani::proof]
-#[kani::unwind(3)]
-fn c24_q_handshake_confirm() {
-    use proto::handshake::{DoneState, VersionTable};
-    use std::collections::hash_map::RandomState;
-    use std::collections::HashMap;
-    // RandomState::new() reaches getrandom/futex; an all-zero key pair is as good for a map that is never hashed into
-    let rs: RandomState = unsafe { core::mem::transmute::<[u64; 2], RandomState>([0u64; 2]) };
-    let st: hs::State = hs::State::Confirm(VersionTable { values: HashMap::with_hasher(rs) });
-    let msg = hs::any_msg();
-    let r = st.apply(&msg);
-    assert!(r.is_ok(), "spec: Confirm accepts AcceptVersion and Refuse");
-    if let Ok(n) = &r {
-        match (&msg, n) {
-            (hs::Message::Accept(v, d), hs::State::Done(DoneState::Accepted(v2, d2))) => {
-                assert!(*v == *v2 && hs::eq_data(d, d2), "Done carries the accepted version and data")
+macro_rules! hs_confirm {
+    ($name:ident, $lo:expr, $hi:expr) => {
+        #[kani::proof]
+        #[kani::unwind(3)]
+        fn $name() {
+            any_vlen();
+            let st = hs::confirm_empty();
+            let msg = hs::msg_k(any_kind($lo, $hi));
+            let r = st.apply(&msg);
+            assert!(r.is_ok(), "spec: Confirm accepts AcceptVersion and Refuse");
+            if let Ok(n) = &r {
+                match (&msg, n) {
+                    (hs::Message::Accept(v, d), hs::State::Done(hs::DoneState::Accepted(v2, d2))) => {
+                        assert!(*v == *v2 && hs::eq_data(d, d2), "Done carries the accepted version and data")
+                    }
+                    (hs::Message::Refuse(x), hs::State::Done(hs::DoneState::Rejected(y))) => assert!(hs::eq_reason(x, y), "Done carries the refuse reason"),
+                    _ => assert!(false, "next state is Done with the prescribed payload"),
+                }
             }
-            (hs::Message::Refuse(x), hs::State::Done(DoneState::Rejected(y))) => assert!(hs::eq_reason(x, y), "Done carries the refuse reason"),
-            _ => assert!(false, "next state is Done with the prescribed payload"),
+            kani::cover!(r.is_ok(), "transition taken");
+            core::mem::forget(r);
+            core::mem::forget(st);
+            core::mem::forget(msg);
         }
-    }
-    kani::cover!(matches!(&r, Ok(hs::State::Done(DoneState::Accepted(..)))), "accepted");
-    kani::cover!(matches!(&r, Ok(hs::State::Done(DoneState::Rejected(proto::handshake::RefuseReason::VersionMismatch(v)))) if v.len() == 1), "rejected with one version");
-    core::mem::forget(r);
-    core::mem::forget(st);
-    core::mem::forget(msg);
+    };
 }
+// assume: handshake: the proposed version table held by Confirm is empty (apply never reads it)
+// bound: handshake: state Confirm(empty version table built with HashMap::with_hasher on a fixed RandomState, never hashed into) x message Accept(any version, any n2n VersionData) resp. Refuse(any of the 3 reason kinds, 0..1 versions, empty text): Done(Accepted/Rejected) carries the received data; unwind 3
+hs_confirm!(c24_q_handshake_confirm_accept, 0, 1);
+hs_confirm!(c24_q_handshake_confirm_refuse, 1, 4);
 
 /// vacuity twin: must come back FAILED
 #[kani::proof]
 #[kani::unwind(2)]
 fn c24_v_twin() {
-    let st = ka::any_state();
-    let msg = ka::any_msg();
+    let st = ka::state_k(any_kind(0, ka::N_STATE));
+    let msg = ka::msg_k(any_kind(0, ka::N_MSG));
     let r = st.apply(&msg);
     assert!(r.is_ok(), "twin: must fail");
     core::mem::forget(r);
